@@ -51,7 +51,7 @@ func init() {
 		Level:     "exploration",
 		Technique: "runtime monitor: referential-integrity scan of the decoded log plus differential replay (truncated log vs retained copy of the untruncated log) after every truncation of generated head and agent histories",
 		LevelText: "Two of three cases drive a real tsdb.DB (block range 100-400, 32 KiB segments, three compressions, exemplar storage and metadata records on) through generated histories: appender batches (V1 and V2; floats, integer/float/custom-bucket histograms, stale markers, exemplars, metadata changes), series that stop and later reappear (garbage collection, duplicate series records), deletes incl. open-ended ranges, Compact, CompactHead on chosen ranges, CompactStaleHead, CompactSelectedSeries, rollbacks and restarts. At the hook tsdb.truncWAL.beforeCheckpoint the WAL directory is copied. After the operation (a) every sample, histogram, exemplar, metadata and tombstone entry of the truncated log must refer to a ref whose series record occurs earlier in replay order (checkpoint first); (b) the truncated log and the retained copy are each replayed by a fresh tsdb.Head (Init with the truncation time as minValidTime): the sample dumps (tombstones applied), the tombstone intervals clipped to the truncation time of series that have data, and the exemplars must be equal, and for every series record surviving in the truncated log the latest metadata entry must be the one of the full log. The third case does the same for agent.DB with VerifTruncate(mint) and both checkpoint implementations, the equivalence being taken on the decoded entries with t >= mint attributed to label sets. Held on the observed truncations only.",
-		LevelNote: "Reductions: latest metadata is compared on the decoded records (the head exposes no metadata reader); for DB.Compact the truncation time is not observable from outside, the head's MinTime read at the hook (never below the truncation time) is used as comparison bound, for CompactHead the exact bound is known; out-of-order ingestion is off (the WBL is not this property's log); tombstones are compared only for series that have samples at or after the bound in one of the replays; appenders are not interleaved (C48 covers that). Trusted: wlog.Reader/record.Decoder and Head.Init as replay implementation (it is the code under test for replay, used identically on both logs).",
+		LevelNote: "Reductions: latest metadata is compared on the decoded records (the head exposes no metadata reader); for DB.Compact the truncation time is not observable from outside, the head's MinTime read at the hook (never below the truncation time) is used as comparison bound, for CompactHead the exact bound is known; out-of-order ingestion is off (the WBL is not this property's log); tombstones are compared only for series that have samples at or after the bound in one of the replays; exemplars of series that a [MinInt64,MaxInt64] tombstone record evicts during replay are not compared (Head replay applies that eviction asynchronously to exemplar ingestion, the outcome is timing dependent for both logs); referential integrity is demanded for samples, histograms and exemplars at or after the bound only (entries below it, tombstones and metadata of collected series legitimately stay in the untouched segments); agent truncation times are generated non-monotonically but judged at the largest time used so far; appenders are not interleaved (C48 covers that). Trusted: wlog.Reader/record.Decoder and Head.Init as replay implementation (it is the code under test for replay, used identically on both logs).",
 		DesignRef: "DESIGN.md §5 C15",
 		Rule:      "case = one history of 30-90 steps (idx%3==2: agent, else head); non-trivial iff at least one truncation wrote a checkpoint that dropped at least one series record while the full log still replays at least one sample at or after the truncation time, and the comparison ran; distinct by the hash of configuration and step trace",
 		Cases: func(variant string, tier core.Tier) int {
@@ -61,7 +61,7 @@ func init() {
 			if tier == core.Thorough {
 				return 2500
 			}
-			return 150
+			return 120
 		},
 		Run:            run,
 		MinNontrivial:  func(t core.Tier) int { return 40 },
@@ -889,6 +889,7 @@ func runAgent(c *core.Case) {
 	now := int64(1000)
 	uid := 0
 	truncChecked, nontrivial := 0, false
+	maxMint := int64(0)
 	known := map[string]bool{}
 	restarts := 0
 	steps := 30 + r.IntN(61)
@@ -1001,12 +1002,19 @@ func runAgent(c *core.Case) {
 			if mint < 0 {
 				mint = 0
 			}
+			// The agent accepts any truncation time; series collected under an earlier, larger time
+			// are gone for good, so everything is judged at the largest time used so far.
+			callMint := mint
+			if mint > maxMint {
+				maxMint = mint
+			}
+			mint = maxMint
 			full := filepath.Join(scratch, fmt.Sprintf("full-%d", i))
 			core.Must(walscan.CopyDir(walDir, full), "copy agent WAL")
 			before, err := walscan.Read(full)
 			core.Must(err, "decode retained agent log")
-			err = db.VerifTruncate(mint)
-			tr("truncate(%d) inmem=%v err=%v", mint, inMem, err)
+			err = db.VerifTruncate(callMint)
+			tr("truncate(%d) bound=%d inmem=%v err=%v", callMint, mint, inMem, err)
 			c.Count("agent_truncations", 1)
 			after, rerr := walscan.Read(walDir)
 			os.RemoveAll(full)
